@@ -189,12 +189,15 @@ impl Updatable<E> for FMotor {
 
 /// Inner getter of an encoder wrapper: scripted output, scripted update error.
 pub struct EncInner {
+    /// a reading that becomes current at the next inner update() (a real encoder samples there)
+    pub pending: Rc<RefCell<Option<Output<State, E>>>>,
     pub cur: Rc<RefCell<Output<State, E>>>,
     pub update_err: Rc<Cell<Option<u8>>>,
     pub updates: Rc<Cell<u64>>,
 }
 #[derive(Clone)]
 pub struct EncHandle {
+    pub pending: Rc<RefCell<Option<Output<State, E>>>>,
     pub cur: Rc<RefCell<Output<State, E>>>,
     pub update_err: Rc<Cell<Option<u8>>>,
     pub updates: Rc<Cell<u64>>,
@@ -202,6 +205,7 @@ pub struct EncHandle {
 impl EncHandle {
     pub fn new() -> Self {
         EncHandle {
+            pending: Rc::new(RefCell::new(None)),
             cur: Rc::new(RefCell::new(Ok(None))),
             update_err: Rc::new(Cell::new(None)),
             updates: Rc::new(Cell::new(0)),
@@ -216,6 +220,9 @@ impl Getter<State, E> for EncInner {
 impl Updatable<E> for EncInner {
     fn update(&mut self) -> NothingOrError<E> {
         self.updates.set(self.updates.get() + 1);
+        if let Some(p) = self.pending.borrow_mut().take() {
+            *self.cur.borrow_mut() = p;
+        }
         match self.update_err.get() {
             Some(k) => Err(Error::Other(k)),
             None => Ok(()),
@@ -299,6 +306,7 @@ pub fn build_dev<'a>(spec: &DevSpec, plan: &Plan) -> Dev<'a> {
             let h = EncHandle::new();
             Dev::Enc(
                 GetterStateDeviceWrapper::new(EncInner {
+                    pending: h.pending.clone(),
                     cur: h.cur.clone(),
                     update_err: h.update_err.clone(),
                     updates: h.updates.clone(),
